@@ -47,3 +47,20 @@ func verifYield() {
 		VerifYield()
 	}
 }
+
+// VerifMake rebuilds a Buffer from a snapshot (replay of explicit-state cases).
+func VerifMake(st VState) Buffer {
+	var b Buffer
+	if !st.Nil {
+		c := st.Cap
+		if c < len(st.Buf) {
+			c = len(st.Buf)
+		}
+		b.buf = make([]byte, len(st.Buf), c)
+		copy(b.buf, st.Buf)
+	}
+	b.validUntil = st.ValidUntil
+	b.mode = st.Mode
+	b.markerOpen = st.MarkerOpen
+	return b
+}
